@@ -87,6 +87,30 @@ def main(argv=None):
     if a.replay:
         return prop.replay(a.replay)
 
+    # 2b. thorough tier: the compiled theories re-checked by the independent checker, axioms listed
+    coqchk = None
+    if tier == 'thorough' and coq_ok:
+        import subprocess
+        try:
+            p = subprocess.run(['coqchk', '-o', '-silent', '-Q', 'theories', 'DX', 'DX.Properties.%s' % pid],
+                               cwd=os.path.join(R.ROOT, 'coq'), stdout=subprocess.PIPE, stderr=subprocess.STDOUT,
+                               text=True, timeout=1200)
+            out = p.stdout
+            import re
+            summary = dict((k, re.search(r'\* %s: *([^\n]*(?:\n  [^\n*]+)*)' % re.escape(k), out).group(1).strip())
+                           for k in ('Axioms', 'Constants/Inductives relying on type-in-type',
+                                     'Constants/Inductives relying on unsafe (co)fixpoints',
+                                     'Inductives whose positivity is assumed') if re.search(r'\* %s:' % re.escape(k), out))
+            coqchk = dict(exit=p.returncode, summary=summary)
+            if p.returncode != 0 or any(v != '<none>' for v in summary.values()) or len(summary) < 4:
+                proof_ok = False
+                broken.append(dict(kind='proof', what='coqchk does not accept Properties/%s.vo without axioms' % pid,
+                                   detail=[out[-1500:]]))
+        except Exception as e:      # noqa
+            coqchk = dict(error=str(e))
+            proof_ok = False
+            broken.append(dict(kind='proof', what='coqchk could not be run', detail=[str(e)]))
+
     # 3. L1 correspondence -------------------------------------------------------------
     cases = prop.cases(tier, rng)
     results = R.run_cases(cases) if cases else []
@@ -154,7 +178,8 @@ def main(argv=None):
         obligations=max(n_thm, 1),
         discharged=(n_thm if proof_ok else 0) or (0 if not proof_ok else 1),
         theorems=rep.get('theorems', []),
-        checker_cmd='make -C coq -j16 (coqc 8.16.1, full .vo) ; make theories/Properties/%s.vo (Print Assumptions)' % pid,
+        checker_cmd='make -C coq -j16 (coqc 8.16.1, full .vo) ; make theories/Properties/%s.vo (Print Assumptions)' % pid
+        + (' ; coqchk -o -silent -Q theories DX DX.Properties.%s' % pid if tier == 'thorough' else ''),
         trusted_base=TRUSTED_BASE + ['Print Assumptions output: %d x "Closed under the global context", axioms: %s'
                                      % (rep.get('closed', 0), rep.get('axioms', []))],
         evaluations=len(results) + l2.get('evaluations', 0),
@@ -164,6 +189,7 @@ def main(argv=None):
         exhaustive=bool(prop.exhaustive(tier)),
         traces_validated_against_impl=len(results) - len(mism) + l2.get('validated', 0),
         l1=dict(cases=len(results), mismatches=len(mism), tag=prop.tag),
+        coqchk=coqchk,
         l2=dict((k, v) for k, v in l2.items() if k not in ('failures', 'samples')),
         feature_histogram=dict(hist.most_common(60)),
         known_findings_reported=sorted(k[0] for k in reported),
